@@ -1017,6 +1017,9 @@ class Model(Object):
             else:
                 self.groups.remove(group)
                 group._model = None
+                # a group that is a member of other groups leaves them
+                for outer in self.get_associated_groups(group):
+                    outer.remove_members([group])
 
     def get_associated_groups(
         self, element: Union[Reaction, Gene, Metabolite]
